@@ -77,7 +77,7 @@ def validate(pid, mk):
         res['builds'] = rc == 0
         # suite with the change (retry once: some replication tests are timing sensitive)
         for attempt in (1, 2):
-            rc, out = sh('go test -mod=mod -vet=off -count=1 -timeout 25m ./...', d, timeout=2400)
+            rc, out = sh('go test -mod=mod -vet=off -count=1 -timeout 8m ./...', d, timeout=2400)
             res['suite_with_change'] = 'pass' if rc == 0 else 'FAIL'
             res['suite_attempts'] = attempt
             if rc == 0:
@@ -128,7 +128,7 @@ def repaired(pid, mk, patch):
             os.remove(os.path.join(d, tgt))
         sh('git checkout -- go.mod go.sum', d)
         for attempt in (1, 2):
-            rc, out = sh('go test -mod=mod -vet=off -count=1 -timeout 25m ./...', d, timeout=2400)
+            rc, out = sh('go test -mod=mod -vet=off -count=1 -timeout 8m ./...', d, timeout=2400)
             res['suite'] = 'pass' if rc == 0 else 'FAIL'
             if rc == 0:
                 break
